@@ -101,6 +101,8 @@ CLASSES = [
     ("cisco-c3600", ("Cisco", "Catalyst", "C3600"), [], "catalyst-nomtu", "no"),
 ]
 CLS = {c[0]: c for c in CLASSES}
+# (wider group, narrower group with the same interface defaults, the narrower group's sibling on the other side of the MTU split)
+COMPOSITION = [("cisco-mtu", "catalyst-mtu", "catalyst-nomtu")]
 
 
 def expected_group(true, tags):
@@ -450,6 +452,36 @@ def check_class(name, v):
         if same_text != (o["group"] == c["group"]):
             v({"kind": "class-text-grouping", "class": name, "other": other}, case,
               "texts %s but groups %s/%s" % ("equal" if same_text else "differ", c["group"], o["group"]))
+    # how the default texts of related hardware classes relate (annet/implicit.py builds a text from independent parts: the
+    # interface defaults, with or without the per-interface MTU, and what every Catalyst gets on top): a narrower class
+    # that takes the same interface defaults has every rule of the wider one; what it has beyond them it has whatever
+    # the MTU split says; and the two halves of the MTU split differ in 'mtu' rows only
+    def paths(group):
+        rep = next(n_ for n_ in CLS if CLS[n_][3] == group)
+        out = set()
+
+        def walk_(rs):
+            for r in rs:
+                out.add(r.path)
+                walk_(r.children)
+        walk_(cls(rep)["rules_ref"])
+        return out
+    for wide, narrow, sibling in COMPOSITION:
+        if c["group"] != narrow:
+            continue
+        pw, pn, ps = paths(wide), paths(narrow), paths(sibling)
+        if not pw <= pn:
+            v({"kind": "class-text-composition", "law": "narrower class keeps the wider class's rules", "group": narrow}, case,
+              "%s lacks %r of %s" % (narrow, sorted(pw - pn)[:4], wide))
+        extra = pn - pw
+        missing = sorted(p_ for p_ in extra if p_ not in ps)
+        if missing:
+            v({"kind": "class-text-composition", "law": "what the narrower class adds does not depend on the MTU split", "group": sibling}, case,
+              "%s has %r beyond %s; %s lacks them" % (narrow, missing[:4], wide, sibling))
+        strip = lambda ps_: {p_ for p_ in ps_ if p_[-1].split()[0] != "mtu"}   # noqa
+        if strip(pn) != strip(ps):
+            v({"kind": "class-text-composition", "law": "the halves of the MTU split differ in mtu rows only", "group": sibling}, case,
+              "%s / %s differ in %r" % (narrow, sibling, sorted(strip(pn) ^ strip(ps))[:4]))
     # matcher calibration: compiled regexp vs the reference word matcher on every universe row
     n = 0
 
